@@ -19,7 +19,7 @@ func checkC19(c *an.Ctx) {
 	c.Rule("C19.2", "one write per line (E10): every path of lineWriter.Write makes exactly one call writing to its destination, carrying the task name, \": \", the stripped payload and the terminator; the prefixed and raw decorators share no mutable package-level state")
 	c.Rule("C19.3", "all bytes are forwarded (E3): in the prefixed Write every consumed line is written to the line buffer before the input advances by exactly what the scanner consumed, the remainder is written after the loop, a nil-error return reports len(p), and WriteFooter flushes the buffer")
 	c.Rule("C19.4", "Finish without Start (E8/E9): NewTaskOutput covers every exported Format constant; for every decorator, a field assigned only under WriteHeader and dereferenced under WriteFooter is nil-tested first (Run always finishes the output but starts it only before the commands); an index or slice bound taken from sort.Search on a list of started tasks is tested against the length first (the result is the length when the task was never added)")
-	c.Rule("C19.5", "presentation only (E4): pkg/output never writes the task's result fields; in Run the output format is consumed only by NewTaskOutput; Finish's error is logged, never returned")
+	c.Rule("C19.5", "presentation only (E4): pkg/output never writes the task's result fields and never reaches a function that reads the captured log destructively (a bytes.Buffer handed to a reader is drained); in Run the output format is consumed only by NewTaskOutput; Finish's error is logged, never returned")
 	c.Rule("C19.6", "lock order (E8): no function of pkg/output calls a lock-taking method of a shared spinner while holding a mutex that one of the spinner's callbacks (run under the spinner's lock) acquires")
 	c.Summaries = append(c.Summaries, "github.com/briandowns/spinner: Start/Stop/Restart/Reverse/UpdateSpeed/UpdateCharSet/Active take the spinner's lock; the spinner goroutine calls PreUpdate/PostUpdate while holding it (read in spinner.go)")
 	c.NotDecided = append(c.NotDecided, "byte-level losslessness for all chunkings (C19.3 is its skeleton)", "ANSI stripping", "terminal behaviour of the spinner; a lock leak inside the spinner library itself (its goroutine returns without unlocking when stopped at the wrong moment — third-party, observation)", "stdout and stderr of one task sharing an unsynchronised bufio.Writer (observation)")
@@ -675,6 +675,63 @@ func presentationOnly(c *an.Ctx, rule string) {
 	}
 	if !bad {
 		c.OK(rule, "pkg/output:task-results", token.NoPos, "no function of pkg/output writes Task.ExitCode/Errored/Error/Skipped")
+	}
+	// nor does it consume the captured log: a bytes.Buffer handed to a reader (or Read/Next/Reset/Truncate on it)
+	// is drained, so a "getter" that reads the log through a Scanner changes the recorded output
+	isLogAddr := func(v ssa.Value) bool {
+		for _, s := range an.Sources(v) {
+			fa, ok := s.(*ssa.FieldAddr)
+			if !ok {
+				continue
+			}
+			ap := an.AccessPath(fa)
+			if len(ap.Fields) >= 2 && ap.Fields[len(ap.Fields)-2] == "Log" && an.TypeIs(ap.Base.Type(), "pkg/task", "Task") {
+				return true
+			}
+		}
+		return false
+	}
+	consumers := map[*ssa.Function]string{}
+	for _, fn := range p.Funcs {
+		an.EachInstr(fn, func(in ssa.Instruction) {
+			ci, ok := in.(ssa.CallInstruction)
+			if !ok {
+				return
+			}
+			cc := ci.Common()
+			name := an.ShortCallee(cc)
+			for i, a := range cc.Args {
+				if !isLogAddr(a) {
+					continue
+				}
+				if i == 0 && strings.HasPrefix(name, "(*bytes.Buffer).") {
+					switch strings.TrimPrefix(name, "(*bytes.Buffer).") {
+					case "Read", "ReadByte", "ReadBytes", "ReadRune", "ReadString", "Next", "Reset", "Truncate", "WriteTo", "ReadFrom", "UnreadByte", "UnreadRune":
+						consumers[fn] = name
+					}
+					continue
+				}
+				// handed on as a value (an io.Reader, usually): whoever receives it may drain it
+				if !strings.HasPrefix(name, "(*bytes.Buffer).") && !strings.HasPrefix(name, "io.MultiWriter") {
+					consumers[fn] = "passes the log buffer to " + name
+				}
+			}
+		})
+	}
+	drains := false
+	for _, fn := range p.Funcs {
+		if !inPkgs("pkg/output")(fn) {
+			continue
+		}
+		for g, path := range p.Reach([]*ssa.Function{fn}, func(e an.CallEdge) bool { return an.InModule(e.Callee) }) {
+			if why, ok := consumers[g]; ok && inPkgs("pkg/output")(fn) && fn.Parent() == nil {
+				drains = true
+				c.Bad(rule, an.Short(fn)+":consumes(Task.Log)", fn.Pos(), "%s reaches %s, which %s: reading the captured log through a reader drains it, so the task's recorded output depends on the output format (%s)", an.Short(fn), an.Short(g), why, p.PathString(path))
+			}
+		}
+	}
+	if !drains {
+		c.OK(rule, "pkg/output:task-log", token.NoPos, "no function of pkg/output reaches a function that reads the captured log destructively (%d such functions in the module)", len(consumers))
 	}
 	r := resolveRunner(c, rule)
 	if !r.ok {
